@@ -328,7 +328,8 @@ let op_scan r = function
     let content_s = unhex content in
     tag r ("kind=" ^ kind);
     tag r ("err=" ^ i_err);
-    if oneshot <> "1" then flag r "prop:C09:delivery-dependent";
+    if oneshot = "0" then flag r "prop:C09:delivery-dependent";
+    if oneshot = "R" then flag r "prop:C06:scan-depends-on-earlier-calls";
     let impl_panic = starts_with i_snap "PANIC" in
     if impl_panic then flag r "impl:panic";
     let i_fwd = String.concat "" (List.map unhex (split_on ',' i_writes)) in
@@ -565,9 +566,19 @@ let op_cut r = function
     tag r ("signal=" ^ signal); tag r ("kind=" ^ kind);
     if starts_with c_snap "PANIC" || starts_with f_snap "PANIC" then flag r "impl:panic" else begin
       (* model on the cut input *)
+      let zeros () =
+        let b = Buffer.create 64 in
+        let tot = ref 0 in
+        while !tot < cut + 5 do
+          if Buffer.length b > 0 then Buffer.add_char b ',';
+          Buffer.add_string b "0,0,9"; tot := !tot + 9
+        done;
+        Buffer.contents b in
       let sched, final = (match signal with
         | "fail" -> (string_of_int (String.length content_s + 1), "fail:7")
         | "faild" -> ("-", "fail:7")
+        | "zeros" -> (zeros (), "eof")
+        | "failz" -> (zeros (), "fail:7")
         | _ -> ("-", "eof")) in
       (match M.scan_snapshot false (source_of (hex cut_s) sched final) with
        | M.Panic _ -> flag r "model:panic"; flag r "corr:panic"
@@ -588,14 +599,14 @@ let op_cut r = function
       (* error *)
       (* a scan error may only be reported for a complete line, or when the stream simply ended: a reader
          failure delivered with / after an unterminated fragment is reported as that failure *)
-      if signal <> "eof" && c_err = "scan" && not (String.contains (unhex c_suffix) '\n') then
+      if signal <> "eof" && signal <> "zeros" && c_err = "scan" && not (String.contains (unhex c_suffix) '\n') then
         flag r "prop:C10:reader-failure-replaced-by-scan-error";
       (match signal with
-       | "eof" ->
+       | "eof" | "zeros" ->
          if not (c_err = "eof" || c_err = "scan" || (not consumed_all && c_err = f_err)) then flag r "prop:C10:error-class"
        | _ ->
          if c_err = "fail:7" then ()
-         else if consumed_all && signal = "fail" then flag r "prop:C10:reader-failure-not-reported"
+         else if consumed_all && (signal = "fail" || signal = "failz") then flag r "prop:C10:reader-failure-not-reported"
          else if not (c_err = "nil" || c_err = "scan") then flag r "prop:C10:error-class");
       (* goroutines complete before the cut are present and identical *)
       let ends_l = List.map int_of_string (split_on ',' ends) in
@@ -720,7 +731,11 @@ let op_pp r = function
          else if (ok && exp_code <> "0") || (not ok && exp_code = "0") then flag r ("corr:pp-exit:" ^ what)) in
     run (mk [] None None) plain_s pe "plain";
     run (mk pal None None) color_s ce "color";
-    let pred = Some (fun h -> M.contains h litb) in
+    (* a literal is a substring test; \001X = the regexp X$ (end of text), \002X = X\n$ *)
+    let pred = (match litb with
+      | M.Npos M.XH :: x -> Some (fun h -> M.has_suffix h x)
+      | M.Npos (M.XO M.XH) :: x -> Some (fun h -> M.has_suffix h (x @ [byte_tab.(10)]))
+      | _ -> Some (fun h -> M.contains h litb)) in
     if litb <> [] then begin
       run (mk [] pred None) (unhex filt) fe "filter";
       run (mk [] None pred) (unhex mat) me "match"
@@ -826,6 +841,7 @@ let op_guess r = function
   | [content; lgoroot; lgopaths; fs; expect; i_snap; i_goroot; i_gopaths; i_gomods; det] ->
     if det <> "1" then flag r "prop:C06:guess-nondeterministic";
     if starts_with i_snap "PANIC" then flag r "impl:panic"
+    else if i_snap = "OPTS-MODIFIED" then flag r "prop:C14:options-value-modified"
     else if i_snap = "nil" then flag r "driver:guess-no-snapshot"
     else begin
       let i_gs = goroutines_of (parse_sx i_snap) in
